@@ -33,7 +33,8 @@ def load_mutants():
         if name.startswith('all-'):
             props = ['C03', 'C04', 'C05', 'C06', 'C07', 'C08', 'C09', 'C10', 'C11', 'C12', 'C14', 'C16', 'C17']
         ms.append({'id': 'benign-' + name, 'property': props, 'expect': None,
-                   'patch': os.path.relpath(p, VERIF), 'source': 'benign', 'tier': 'thorough'})
+                   'patch': os.path.relpath(p, VERIF), 'source': 'benign',
+                   'tier': 'thorough' if name.startswith(('c03', 'c14')) else 'quick'})
     return ms
 
 
@@ -124,6 +125,9 @@ def main():
         ms = [m for m in ms if re.search(only, m['id'])]
     if prop:
         ms = [m for m in ms if prop in (m['property'] if isinstance(m['property'], list) else [m['property']])]
+        for m in ms:
+            if m.get('expect') is None:
+                m['property'] = [prop]      # benign fixtures: only the requested property's check
     res = []
     with ThreadPoolExecutor(max_workers=jobs) as ex:
         for r in ex.map(run_one, ms):
